@@ -6,6 +6,8 @@ the epoch, whole seconds and sub-second nanoseconds; the instant is the rational
 ±(secs + nanos·10⁻⁹).  The clock itself (`now`) is a parameter (DESIGN.md §10).
 -/
 import JulianVerif.Model.Time
+import JulianVerif.Lemmas.GenTime
+import JulianVerif.Props.C05
 namespace JV.C14
 open JV
 
@@ -85,5 +87,41 @@ example : system2jdn true 0 500000000 = some (2440587, 86399) := by decide
 example : system2jdn true 1 500000000 = some (2440587, 86398) := by decide
 example : unix2jdn 185331720383999 = some (2147483647, 86399) := by decide
 example : unix2jdn 185331720384000 = none := by decide
+
+/-- `system2jdn` **as generated from lib.rs** (DESIGN.md 0.9; a `SystemTime` is the side of the epoch it is
+on, its whole seconds — a `u64`, hence `0 ≤ secs` — and its nanoseconds): it cannot fault and is the
+function `system_floor` is about -/
+theorem generated_system2jdn (before : Bool) (secs nanos : Int) (hs : 0 ≤ secs) :
+    Gen.system2jdnG (before, secs, nanos) = some (system2jdn before secs nanos) := by
+  rw [Gen.system2jdnG_eq _ _ _ hs]
+  exact C05.timestamps_no_panic.2.2 before secs nanos hs
+
+theorem system2jdn_in_range (before : Bool) (secs nanos j s : Int)
+    (h : system2jdn before secs nanos = some (j, s)) : InI32 j := by
+  simp only [system2jdn] at h
+  split at h
+  · cases h
+  · split at h
+    · exact (C05.unix2jdn_in_range _ j s h).1
+    · exact (C05.unix2jdn_in_range _ j s h).1
+
+/-- the generated `Calendar::at_system_time`, for every calendar a caller can hold: no fault, and the
+model's answer (the calendar's date for the day the instant falls in) -/
+theorem generated_at_system_time (c : Calendar) (hc : WF c) (before : Bool) (secs nanos : Int) (hs : 0 ≤ secs) :
+    Gen.calendarAtSystemTime c (before, secs, nanos) = c.atSystemTime? before secs nanos
+    ∧ c.atSystemTime? before secs nanos ≠ none := by
+  obtain ⟨hj, _, _⟩ := C05.generated_constructors c hc
+  simp only [Gen.calendarAtSystemTime, generated_system2jdn before secs nanos hs, Calendar.atSystemTime?,
+    bind, Option.bind, pure]
+  cases hq : system2jdn before secs nanos with
+  | none => simp
+  | some p =>
+    obtain ⟨j, s⟩ := p
+    have hr := system2jdn_in_range before secs nanos j s hq
+    obtain ⟨h1, h2⟩ := hj j hr
+    simp only [h1]
+    cases hd : c.atJdn? j with
+    | none => exact absurd hd h2
+    | some d => simp
 
 end JV.C14
